@@ -16,7 +16,7 @@ BOUNDS = {
     "thorough": {"scalars": "same", "string,bytes": "lengths 0..3", "lists": "length 0..3, nested once", "maps": "<= 2 keys, nested list values", "runners": "both"},
 }
 OUTSIDE = ["NaN (excluded from every law incl. reflexivity: IEEE and CEL have NaN != NaN)",
-           "timestamp/duration comparison happens inside C datetime: covered by C11's time model, not here",
+           "timestamp/duration comparison happens inside C datetime: here only enumerated concrete instants written with different offsets (labelled enumeration)",
            "cross-type comparisons (no such overload)"]
 ASSUMPTIONS = ["same-type operands only", "the order asserted for numbers is the numeric order, for strings/bytes the code point / octet lexicographic order"]
 TRUSTED = ["z3 5.1", "CPython 3.12 on concrete values", "vf.sym shadows", "vf.refsem / vf.props.values reference relations"]
@@ -29,7 +29,7 @@ MANIFEST = {
     "design_ref": "DESIGN.md §7 C08",
 }
 
-ORDERED = ("int", "uint", "double", "bool", "string", "bytes")
+ORDERED = ("int", "uint", "double", "bool", "string", "bytes", "timestamp", "duration")
 SK = lambda s: {"t": "string", "v": s}
 IK = lambda i: {"t": "int", "v": i}
 
@@ -72,6 +72,15 @@ def _shape_sets(tier):
                  (M((IK(1), ("double",)), (IK(2), ("double",))), M((IK(2), ("double",)), (IK(1), ("double",))))]
     for a, b in maps:
         out.append(("map", [a, b, None]))
+    # timestamps / durations: concrete instants written with different offsets (enumeration; the calendar model is C11's)
+    TS = lambda us, off=0: ("const", {"t": "timestamp", "us": us, "off": off})
+    DU = lambda us: ("const", {"t": "duration", "us": us})
+    base = 1234567890000000
+    for a, b, c in [(TS(base), TS(base, 330), TS(base + 1)), (TS(base, -300), TS(base, 0), TS(base, 840)), (TS(base, 60), TS(base - 3600000000, 0), TS(base + 1000, -720)),
+                    (TS(0), TS(-1, 1), TS(1, -1)), (TS(-62135596800000000), TS(-62135596800000000 + 50400000000, 840), TS(253402300799000000, -60))]:
+        out.append(("timestamp", [a, b, c]))
+    for a, b, c in [(DU(0), DU(0), DU(1)), (DU(-1000000), DU(1000000), DU(999999)), (DU(315576000000000000), DU(-315576000000000000), DU(86400000000))]:
+        out.append(("duration", [a, b, c]))
     return out
 
 
